@@ -6,6 +6,8 @@ state is the frame history that reaches it, rebuilt on a fresh simulator; from e
 Part 2: every sequence of <= N frames delivered one per recv() and again coalesced into a single chunk before any
 reply is read (reply streams must be identical), plus runs of k = 1..64 pipelined requests.
 Environment answers: randint -> 0 and -> an in-use session handle (retry loop), conn.send raising socket.error.
+Configuration: a simulator started with the documented request size limit (--size) answers an over-limit request with exactly
+one error frame, after the replies to the 0..2 requests before it.
 """
 import itertools
 import struct
@@ -459,6 +461,59 @@ def check_env(which):
             bad.append(("other-session-interference", "a second session from the same host doing %r changed what the first session is "
                         "answered: reply %d is %s instead of %s" % (script, k, got[k].hex() if k >= 0 else got, base[k].hex() if k >= 0 else base)))
         return bad
+    if which.startswith("size-limit"):
+        # a simulator configured with the documented request size limit (-s/--size): a well-formed request over the limit is still a
+        # request -- exactly one reply frame (context and session echoed; an error status is expected), nothing for it is executed, and
+        # the requests before it are answered first, in order
+        limit = int(which.split("=")[1])
+        for pre in (0, 1, 2):
+            for coalesced in (False, True):
+                S = sim.Sim(CFG)
+                S.kwds["size"] = limit
+                ss = sim.Session(S, ADDR)
+                h = Hist()
+                fr, q = build("register", h, CTX[0])
+                rp = ss.feed(fr)
+                b, _ = judge(q, rp, h, ss.alive, ss.exc)
+                bad += b
+                small = [build("read_ok", h, struct.pack("<Q", 100 + i)) for i in range(pre)]
+                big_cip = W.multiple([W.write_tag(W.tag_path("a"), W.INT, [5, 6])] * 6)
+                big_ctx = struct.pack("<Q", 777)
+                big = W.send_rr_data(h.session, big_cip, big_ctx)
+                if len(big) - 24 <= limit or any(len(f) - 24 > limit for f, _ in small):
+                    raise core.HarnessError("size-limit scenario: frames %d / %r do not straddle the limit %d"
+                                            % (len(big), [len(f) for f, _ in small], limit))
+                before = S.store()
+                frames_in = [f for f, _ in small] + [big]
+                replies = ss.feed(b"".join(frames_in)) if coalesced else [x for f in frames_in if ss.alive for x in ss.feed(f)]
+                guard = 0
+                while ss.alive and guard < 3 and coalesced:
+                    replies += ss.feed(None)
+                    guard += 1
+                try:
+                    frames = W.split_frames(b"".join(replies))
+                except W.WireError as e:
+                    bad.append(("reply-not-a-frame", "size limit %d: %s" % (limit, e)))
+                    ss.close()
+                    continue
+                what = "size limit %d, %d small request(s) then one of %d bytes (%s)" % (limit, pre, len(big) - 24,
+                                                                                       "one chunk" if coalesced else "one per recv")
+                if len(frames) != pre + 1:
+                    bad.append(("reply-count", "%s: %d reply frames for %d requests" % (what, len(frames), pre + 1)))
+                else:
+                    for i, ((f_, q_), fr_) in enumerate(zip(small, frames)):
+                        b, _ = judge(q_, [W.frame(fr_["command"], fr_["payload"], fr_["session"], fr_["status"], fr_["context"], fr_["options"])], h, True, None)
+                        bad += [(kk, "%s: request %d: %s" % (what, i, m)) for kk, m in b]
+                    last = frames[-1]
+                    if last["command"] != 0x6F or last["context"] != big_ctx or last["session"] != h.session:
+                        bad.append(("reply-mismatch", "%s: the over-limit request was answered by command 0x%x session %r context %r"
+                                    % (what, last["command"], last["session"], last["context"])))
+                    if last["status"] == 0:
+                        bad.append(("over-limit-request-accepted", "%s: answered with encapsulation status 0" % what))
+                if S.store() != before:
+                    bad.append(("over-limit-request-executed", "%s: store %r -> %r" % (what, before, S.store())))
+                ss.close()
+        return bad
     if which == "randint":
         # first session gets a handle; second Register is offered 0, then the in-use handle, then a fresh value
         S = sim.Sim(CFG)
@@ -659,7 +714,7 @@ def run(ctx):
     for k in ks:
         items.append(("run", k, ("read_ok",)))
         items.append(("run", k, ("read_ok", "write_v1", "read_range", "write_v0")))
-    for which in ("randint", "send=0", "send=1", "send=2",
+    for which in ("size-limit=60", "randint", "send=0", "send=1", "send=2",
                   "other-session:register,eof", "other-session:register,fwd_open,eof", "other-session:register,fwd_open,unregister",
                   "other-session:register,fwd_open,fwd_close", "other-session:same-serial,register,fwd_open,fwd_close",
                   "other-session:register,fwd_open,fwd_open,unit_read,eof", "other-session:register,bad_command",
